@@ -952,3 +952,23 @@ func SpecContains(s string, sub string) bool { return false }
 //@   set wantRun = runId at call NewRedisConn
 //@   assert at call DelCheckpoint: the_position_of_this_checkpoint_and_run_id_is_withdrawn: arg1 == ro.cfg.CheckpointName && arg2 == wantRun
 //@   ensures success_means_withdrawn: result == nil ==> delCalls == old(delCalls) + 1
+
+// ---- the follower takes only META / CONTINUE answers for data (C16) ----------------------------
+// HANDOVER, CLEAR, FAULT, ERROR and FAILURE are control answers: none of them is ever handed on
+// as a snapshot header or as a chunk of the stream.
+//@ func golang.SyncResponse.GetCode(self) (c)
+//@   trusted generated accessor
+//@   modifies nothing
+//@   ensures field: self != nil ==> c == self.Code
+//@ func golang.SyncResponse_Meta.GetMsg(self) (s)
+//@   trusted generated accessor
+//@   modifies nothing
+
+//@ func ReplicaFollower.handleResp
+//@   arith int
+//@   properties C16
+//@   replay syncer_clearAnswer
+//@   requires nonnil: rf != nil
+//@   modifies heap
+//@   ensures an_error_stays_an_error: err != nil ==> result != nil
+//@   ensures a_control_answer_is_never_taken_for_data: err == nil && resp != nil && resp.Code != golang.SyncResponse_META && resp.Code != golang.SyncResponse_CONTINUE ==> result != nil
